@@ -666,6 +666,16 @@ def run_c16(ctx):
         el = (lambda: g.int()) if elem == "int" else (lambda: g.item(2, plain=True))
         cs.append({"id": "stackhist-%05d" % i, "api": "stack", "elem": elem, "init": [el() for _ in range(g.r.randint(0, 4))],
                    "ops": random_stack_history(g, elem, 200)})
+    # positions near usize::MAX (encoded as negative numbers) on stacks of every small length: reported as absent, never fail
+    k = 0
+    for elem in ("int", "item"):
+        mk = (lambda j: j) if elem == "int" else (lambda j: {"k": "int", "v": j})
+        for n in range(0, 4):
+            for m in STACK_M1 + ["equal_at", "replace"]:
+                for pos in (-1, -2, -3):
+                    args = [pos] + ([mk(7)] if m in ("equal_at", "replace") else [])
+                    cs.append({"id": "hugepos-%04d" % k, "api": "stack", "elem": elem, "init": [mk(j) for j in range(n)],
+                               "ops": [{"m": m, "args": args}, {"m": "size", "args": []}, {"m": "to_string", "args": []}]}); k += 1
     run_events(ctx, "stack_histories", cs, spec="TraceApi")
 
 
